@@ -303,10 +303,12 @@ func c03Gen(c *core.Ctx) {
 		hds := gen.Heredocs(p)
 		rd := gen.Join(gen.Tokens(p, true), nil)
 		hi := 0
-		for _, t := range rd.Toks {
+		for ti, t := range rd.Toks {
 			if t.Kind != gen.THereBody || hi >= len(hds) {
 				continue
 			}
+			// another here-document of the same line is still pending after this one
+			morePending := ti+1 < len(rd.Toks) && rd.Toks[ti+1].Kind == gen.THereBody
 			h := hds[hi]
 			hi++
 			if gen.HeredocText(h) != t.Text {
@@ -322,7 +324,7 @@ func c03Gen(c *core.Ctx) {
 				if h.Dash {
 					last = strings.TrimLeft(last, "\t")
 				}
-				if last == delim {
+				if last == delim && !morePending {
 					continue // the cut leaves a line equal to the delimiter: a legitimate terminator at end of input
 				}
 				core.Do(c, c03Case{Raw: rd.Text[:t.Off+cut], Kind: "heredoc-truncation"}, c03Exec)
